@@ -87,7 +87,16 @@ def child_env(home=None, extra=None):
 
 def _warm_one(args):
     arch, home = args
-    code = "from osaca.semantics import MachineModel; MachineModel(arch=%r)" % arch
+    # per-(sandbox, arch) lock: OSACA writes its pickle in place, so two cold loads of the same
+    # model must not overlap inside the shared sandbox (this is harness hygiene, not C17)
+    code = (
+        "import fcntl, os, glob\n"
+        "d = os.path.join(os.environ['HOME'], '.osaca', 'data')\n"
+        "lk = open(os.path.join(d, '.lock_%s' % {a!r}), 'w')\n"
+        "fcntl.flock(lk, fcntl.LOCK_EX)\n"
+        "if not glob.glob(os.path.join(d, '.%s_*.pickle' % {a!r})):\n"
+        "    from osaca.semantics import MachineModel; MachineModel(arch={a!r})\n"
+    ).format(a=arch)
     p = subprocess.run([PY, "-B", "-c", code], env=child_env(home), cwd="/", stdout=subprocess.PIPE,
                        stderr=subprocess.STDOUT)
     return arch, p.returncode, p.stdout.decode("utf-8", "replace")[-2000:]
@@ -99,9 +108,18 @@ def warm_models(archs, home=None):
     home = home or sandbox_home()
     data = os.path.join(home, ".osaca", "data")
     todo = [a for a in archs if not glob.glob(os.path.join(data, ".%s_*.pickle" % a))]
-    if "x86" in archs or "aarch64" in archs:
-        pass
     res = {}
+    for isa in ("x86", "aarch64"):
+        if not glob.glob(os.path.join(data, "isa", ".%s_*.pickle" % isa)):
+            code = (
+                "import fcntl, os\n"
+                "lk = open(os.path.join(os.environ['HOME'], '.osaca', 'data', 'isa', '.lock_%s'), 'w')\n"
+                "fcntl.flock(lk, fcntl.LOCK_EX)\n"
+                "from osaca.semantics import ISASemantics; ISASemantics(%r)\n"
+            ) % (isa, isa)
+            p = subprocess.run([PY, "-B", "-c", code], env=child_env(home), cwd="/", stdout=subprocess.PIPE,
+                               stderr=subprocess.STDOUT)
+            res["isa:" + isa] = (p.returncode, p.stdout.decode("utf-8", "replace")[-2000:])
     if todo:
         with concurrent.futures.ThreadPoolExecutor(max_workers=16) as ex:
             for arch, rc, out in ex.map(_warm_one, [(a, home) for a in todo]):
